@@ -99,6 +99,19 @@ def pSelStep : P (SelStep Float) := do
   | t => throw s!"unknown selection step {t}"
 
 partial def pGTree (cfg : Cfg Float) (idx : List Cal.Stamp) : P (GTree Float) := do
+  let tag ← next
+  if tag == "F" then
+    -- fixed-income node: gate, specified weights, notional series
+    let k ← pKind
+    let f1 ← bool; let f2 ← bool; let f3 ← bool
+    let ws ← list (do let i ← nat; let x ← float; pure (i, x))
+    let notional ← list (opt float)
+    let kids ← list (do
+      match (← next) with
+      | "N" => pure none
+      | _ => some <$> pGTree cfg idx)
+    let p : ProgFI Float := { gate := gateOf k ⟨f1, f2, f3⟩ idx, ws, notional }
+    return (.node (progRunFI cfg p) kids)
   let k ← pKind
   let f1 ← bool; let f2 ← bool; let f3 ← bool
   let ucols ← list nat
